@@ -1,7 +1,7 @@
 \* behaviour generation (tlc -simulate): chains of <= 4 blocks, <= 3 reverts, the code as it is
 CONSTANTS
   MaxLen = 4
-  MaxReverts = 5
+  MaxReverts = 8
   MaxSteps = 48
   Txs <- MCTxs
   FixTxIndexMissingBlock = FALSE
